@@ -181,3 +181,11 @@ Definition throttled_ok (max_ns min_delay_ns : Z) (delays : list Z)
   (elapsed_ns <=? max_ns + 3 * NS_PER_S) &&
   Nat.eqb (length bodies) attempts && all_eq_nonzero bodies &&
   Nat.eqb (length gaps) (pred attempts) && gaps_ge delays gaps.
+
+(** Concurrent bursts (several exports started together in one process, each with its own payload, first
+    attempt answered 503, then 200): every export is delivered in two attempts, and the body of every attempt
+    decompresses / decodes to that export's OWN payload, the same bytes each time. *)
+Definition burst_ok (attempts : nat) (decoded : list N) (own : list bool) (err : N) : bool :=
+  Nat.eqb attempts 2 && (err =? 0)%N &&
+  Nat.eqb (length decoded) attempts && all_eq_nonzero decoded &&
+  Nat.eqb (length own) attempts && forallb (fun b => b) own.
